@@ -9,15 +9,11 @@
 import GormModel.Lemmas.Where
 import GormModel.Props.C08
 import GormModel.Gen.Pipelines
+import GormModel.Gen.GuardFacts
 namespace Gorm
 
 /-- a chain call contributes a condition iff its form is effective -/
 def effective (f : Form) : Bool := f.cond.isSome
-
-theorem mkAnd_isSome (es : List Ex) (h : es ≠ []) : (mkAnd es).isSome = true := by
-  cases es with
-  | nil => exact absurd rfl h
-  | cons e r => cases r <;> simp [mkAnd] <;> split <;> rfl
 
 /-- the empty forms: "", nil, empty map, all-zero struct, empty slice, group without conditions -/
 theorem C09_empty_forms_ineffective :
@@ -75,20 +71,6 @@ theorem chainExprs_length_aux (ops : List (ChainOp × Form)) (acc : List Ex) :
 theorem C09_where_length (ops : List (ChainOp × Form)) : (chainExprs ops).length = effCount ops := by
   have := chainExprs_length_aux ops []
   simpa [chainExprs] using this
-
-theorem regroup_length_pos (es : List Ex) (h : es ≠ []) : (regroup es).length ≥ 1 := by
-  unfold regroup
-  by_cases ha : es.any Ex.isSingleOr = true
-  · simp only [ha, if_true]
-    have := mkAnd_isSome es h
-    cases hm : mkAnd es with
-    | none => rw [hm] at this; simp at this
-    | some x => simp
-  · have h' : es.any Ex.isSingleOr = false := by simpa using ha
-    simp only [h', Bool.false_eq_true, if_false]
-    cases es with
-    | nil => exact absurd rfl h
-    | cons e r => simp
 
 /-- BLOCKS: without AllowGlobalUpdate, a chain none of whose condition calls is effective and a model value
     without primary key is rejected — on a plain model (no WHERE entry at all) and on a soft-delete model
@@ -158,10 +140,59 @@ theorem C09_blocks_after_query (ops : List (ChainOp × Form)) (soft : Option Ato
 /-- AllowGlobalUpdate (config or session) switches the guard off -/
 theorem C09_allow_global (s : WhereState) : missingWhere true s = false := by simp [missingWhere]
 
-/-- boundary, stated not hidden: an explicit EMPTY `clause.Where{}` object creates a WHERE entry with zero
-    expressions and passes the guard on a plain model -/
-theorem C09_empty_where_clause_example :
-    missingWhere false { exprs := some [], softEnabled := false } = false := by decide
+/-! ### statement reuse: the guard after ANY sequence of earlier calls on the same statement -/
+
+/-- BLOCKS on a reused statement: after any sequence of condition-free calls — empty condition forms, Unscoped toggled
+    anywhere, read AND write finishers in every order (Count/Find/First/Take/Last/Pluck/Scan/Rows/Update/Delete) — a
+    write finisher on a key-less model value is rejected; plain or soft-delete model.  (`_partial`: the hypothesis
+    `opBare` excludes `Clauses(clause.Where{…})` calls, see `C09_empty_where_counterexample`.) -/
+theorem C09_blocks_reuse_partial (cfg : StmtCfg) (hk : cfg.modelKey = []) (hag : cfg.allowGlobal = false)
+    (ops : List StmtOp) (ho : ∀ op ∈ ops, opBare op = true) (k : FinKind) (hw : k.isWrite = true) (same : Bool) :
+    finRejected cfg (stmtRun cfg StmtState.fresh ops) k [] same = true :=
+  bare_rejected cfg hk hag _ (stmtRun_bare cfg hk _ ops (Or.inl rfl) ho) k hw same
+
+/-- ADMITS on a reused statement: once any call supplied a condition (`Where/Not/Or` with a non-empty form, or a
+    non-empty `clause.Where`), no later write finisher on that statement is rejected on this ground, whatever ran in
+    between -/
+theorem C09_admits_reuse (cfg : StmtCfg) (ops1 ops2 : List StmtOp) (op : StmtOp) (ho : opEffective op = true)
+    (k : FinKind) (vk : List Atom) (same : Bool) :
+    finRejected cfg (stmtRun cfg StmtState.fresh (ops1 ++ op :: ops2)) k vk same = false := by
+  have h1 : MarkerInv cfg (stmtRun cfg StmtState.fresh ops1) := stmtRun_markerInv cfg _ ops1 (markerInv_fresh cfg)
+  have h2 := stmtStep_effective_rich cfg _ op (markerInv_nonempty cfg _ h1) ho
+  have h3 := stmtRun_rich cfg _ ops2 h2
+  have : stmtRun cfg StmtState.fresh (ops1 ++ op :: ops2) = stmtRun cfg (stmtStep cfg (stmtRun cfg StmtState.fresh ops1) op) ops2 := by
+    simp [stmtRun, List.foldl_append]
+  rw [this]
+  exact rich_admitted cfg _ h3 k vk same
+
+/-- … and a write whose value (or Model) carries a primary key is admitted after any history -/
+theorem C09_admits_keyed_reuse (cfg : StmtCfg) (ops : List StmtOp) (k : FinKind) (vk : List Atom) (same : Bool)
+    (hkeys : writeKeys cfg k vk same ≠ [])
+    (hset : k = .update → (stmtRun cfg StmtState.fresh ops).keys.contains "SET" = false) :
+    finRejected cfg (stmtRun cfg StmtState.fresh ops) k vk same = false :=
+  keyed_admitted cfg _ (markerInv_nonempty cfg _ (stmtRun_markerInv cfg _ ops (markerInv_fresh cfg))) k vk same hkeys hset
+
+/-- FINDING F26 (kernel-checked): `Clauses(clause.Where{})` — a WHERE entry with ZERO expressions — supplies no
+    condition, yet on a plain model (or Unscoped) the guard lets the write through: `checkMissingWhereConditions` looks
+    at the PRESENCE of the entry and counts expressions only next to the soft-delete marker.  The statement
+    `UPDATE … WHERE ` / `DELETE FROM … WHERE ` is sent (and refused by the database's parser). -/
+theorem C09_empty_where_counterexample :
+    let cfg : StmtCfg := { soft := none, modelKey := [], allowGlobal := false }
+    opEffective (.clauseWhere []) = false ∧
+    finRejected cfg (stmtRun cfg StmtState.fresh [.clauseWhere []]) .update [] false = false ∧
+    finRejected cfg (stmtRun cfg StmtState.fresh [.clauseWhere []]) .delete [] false = false ∧
+    -- the same on a soft-delete model once Unscoped
+    finRejected { cfg with soft := some { col := "deleted_at", kind := .eq, val := .nil, id := 0 } }
+      (stmtRun { cfg with soft := some { col := "deleted_at", kind := .eq, val := .nil, id := 0 } } StmtState.fresh [.unscoped, .clauseWhere []])
+      .delete [] false = false := by
+  decide
+
+/-- … while on a soft-delete model that is not Unscoped the empty entry is harmless: filter + marker, one expression -/
+theorem C09_empty_where_soft_blocks (f : Atom) (k : FinKind) (hw : k.isWrite = true) (same : Bool) :
+    let cfg : StmtCfg := { soft := some f, modelKey := [], allowGlobal := false }
+    finRejected cfg (stmtRun cfg StmtState.fresh [.clauseWhere []]) k [] same = true := by
+  cases k <;> simp_all [FinKind.isWrite, finRejected, stmtRun, stmtStep, finWhere, writeKeys, modifyBy, softDeleteModify,
+    addWhere, missingWhere, StmtState.fresh, mkAnd]
 
 /-! ### position of the guard in the regenerated `Update` / `Delete` handlers -/
 
@@ -184,5 +215,68 @@ theorem C09_guard_position :
 
 theorem C09_guard_handlers_exist :
     (Gen.handlers.filter (fun h => h.name == "Update" || h.name == "Delete")).length = 2 := by decide
+
+/-! ### the same from the PATH facts (Gen/GuardFacts.lean): domination on every branch
+
+  `Gen.handlers` lists the conditions dominating a call but not whether the guard ITSELF is conditional; the path facts
+  give, for the guard, the build and every driver call, the way from the handler closure's body to the call. -/
+
+def stepOK (s : Gen.GuardStep) : Bool :=
+  s.branch == "stmt" || s.branch == "then" || s.branch == "else" || s.branch == "block"
+
+/-- `g` (path of the guard call) dominates `d` (path of a driver call), and a `db.Error == nil` test evaluated after
+    the guard dominates `d` too: the guard is a plain statement of some block; `d` lies inside a LATER statement of
+    the same block, on a path of if/else/blocks only, one of which is the THEN branch of an `if` having the conjunct
+    `db.Error == nil` -/
+def guardDominates (g d : List Gen.GuardStep) : Bool :=
+  match g.reverse with
+  | [] => false
+  | gl :: preRev =>
+    let pre := preRev.reverse
+    gl.branch == "stmt" && pre.isPrefixOf d &&
+    match d.drop pre.length with
+    | [] => false
+    | dk :: rest =>
+      decide (gl.idx < dk.idx) && (dk :: rest).all stepOK &&
+      (dk :: rest).any (fun s => s.branch == "then" && s.conds.contains "db.Error == nil")
+
+/-- the statement build lies in an EARLIER statement of the guard's block: the guard sees the final clauses -/
+def buildBefore (b g : List Gen.GuardStep) : Bool :=
+  match g.reverse with
+  | [] => false
+  | gl :: preRev =>
+    let pre := preRev.reverse
+    pre.isPrefixOf b &&
+    match b.drop pre.length with
+    | [] => false
+    | bk :: _ => decide (bk.idx < gl.idx)
+
+def handlerGuarded (h : Gen.GuardHandler) : Bool :=
+  match h.calls.filter (fun c => c.kind == "guard") with
+  | [g] =>
+    (h.calls.filter (fun c => c.kind == "driver")).all (fun d => guardDominates g.path d.path) &&
+    (h.calls.filter (fun c => c.kind == "build")).all (fun b => buildBefore b.path g.path) &&
+    !(h.calls.filter (fun c => c.kind == "driver")).isEmpty
+  | _ => false
+
+/-- in callbacks/update.go `Update` and callbacks/delete.go `Delete` (as they are in /repo now) there is exactly one call
+    of checkMissingWhereConditions; it is unconditional in its block; EVERY driver call (ExecContext and the
+    RETURNING branch's QueryContext alike) lies in a later statement of that block under an `if … db.Error == nil`;
+    the statement is built before the guard runs -/
+theorem C09_guard_dominates : ∀ h ∈ Gen.guardHandlers, handlerGuarded h = true := by
+  decide
+
+theorem C09_guard_paths_exist : Gen.guardHandlers.map (·.name) = ["Update", "Delete"] := by decide
+
+/-- the decision procedure is not vacuous: it rejects a guard nested in a branch the driver call is not in, and a driver
+    call whose `if` lost the error test -/
+example :
+    guardDominates [{ idx := 4, branch := "then", conds := ["!ok"] }, { idx := 0, branch := "stmt", conds := [] }]
+                   [{ idx := 5, branch := "then", conds := ["!db.DryRun", "db.Error == nil"] }, { idx := 0, branch := "stmt", conds := [] }] = false ∧
+    guardDominates [{ idx := 3, branch := "stmt", conds := [] }]
+                   [{ idx := 4, branch := "then", conds := ["!db.DryRun"] }, { idx := 0, branch := "stmt", conds := [] }] = false ∧
+    guardDominates [{ idx := 3, branch := "stmt", conds := [] }]
+                   [{ idx := 4, branch := "then", conds := ["!db.DryRun", "db.Error == nil"] }, { idx := 0, branch := "stmt", conds := [] }] = true := by
+  decide
 
 end Gorm
